@@ -261,27 +261,8 @@ func c06MultiCheck(ctx *core.Ctx, c c06MultiCase, probes []int, reqs *[]string, 
 	} else {
 		ctx.Hist("multi-dispatch", "linear")
 	}
-	// the order claims are part of the ColumnIndex contract but not of C06: an untruthful claim is an observation
-	// here (it becomes a C06 failure through the probes below when Find relies on it)
-	if asc || desc {
-		var mn, mx []int
-		for _, p := range pages {
-			if !p.null {
-				mn, mx = append(mn, p.min), append(mx, p.max)
-			}
-		}
-		sorted := func(xs []int, down bool) bool {
-			return sort.SliceIsSorted(xs, func(i, j int) bool {
-				if down {
-					return xs[i] > xs[j]
-				}
-				return xs[i] < xs[j]
-			})
-		}
-		if !sorted(mn, desc && !asc) || !sorted(mx, desc && !asc) {
-			ctx.Observe(fmt.Sprintf("multi-order-claim-untrue %s order=%d", c.flavour, order), "the multi column index claims an order its non-null pages do not have", detail(nil))
-		}
-	}
+	// the order claims themselves are C05's (claimed boundary order of the multi view, repaired by 5dcb05b); here they
+	// matter through Find only: the probes below fail when Find relies on an untruthful ASCENDING claim
 	sig := fmt.Sprintf("multi %s order=%d nullpages=%v", c.flavour, order, hasNull)
 	if emptyChunk {
 		sig += " zero-page-chunk"
